@@ -168,6 +168,22 @@ def main(ck, tier, w, pid='C01'):
 
     if pid == 'C01':
         boundary(ck, w, seed, quick)
+        # counts and sizes beyond 16 bits: 66 000 transactions in a block, 65 600 inputs / outputs / witness items, 66 000-byte scripts
+        from lib import extremes
+        for coin in (['bitcoin', 'litecoin'] if quick else list(btc.COINS)):
+            xb = extremes.wide_chain('%d-%s' % (seed, coin), coin)
+            xd = datadir.simple_dir(w.sub('dd'), xb, coin).write()
+            for s_, e_ in ((None, None), (2, 3)) if coin == 'bitcoin' else ((1, None),):
+                r = run.run_parser(xd, 'csvdump', dump=w.mk('out'), coin=coin, start=s_, end=e_, timeout=600)
+                lo, hi = s_ or 0, 3 if e_ is None else e_
+                exp, _ = ref.csv_expected(list(enumerate(xb))[lo:hi + 1], coin)
+                ck.evals()
+                ck.distinct(('wide', coin, s_, e_))
+                bad = [f for f in exp if r.files.get('%s-%d-%d.csv' % (f, lo, hi)) != exp[f]]
+                if r.rc != 0 or bad:
+                    ck.violation('%s csvdump of the wide chain (66 000 transactions in a block, 65 600 inputs/outputs/witness items), range %s..%s: exit %d, '
+                                 'files differing from the reference: %s' % (coin, lo, hi, r.rc, bad),
+                                 {'coin': coin, 'start': s_, 'end': e_, 'observed': r.brief(), 'tags': []})
     else:
         aux_extras(ck, w, seed, quick)
     ck.assumptions += ['well-formed chains: canonical CompactSize, legacy transactions have >= 1 input',
